@@ -40,9 +40,13 @@ def case_strategy(draw, tier="quick"):
         p = {"i": iv, "key": draw(st.sampled_from(["key_self", "key_mod2", "key_mod3"])),
              "keep": draw(st.sampled_from(["first", "last"]))}
         t = ["L", "E"]
-    nodes = [{"k": "entry", "u": [], "p": {}, "t": "E"},
-             {"k": kind, "u": [0], "p": p, "t": t},
-             {"k": "sink", "u": [1], "p": {}, "t": None}]
+    nodes = [{"k": "entry", "u": [], "p": {}, "t": "E"}]
+    if kind in ("partition_t", "timed_window_unique") and draw(st.integers(0, 3)) == 0:
+        # elements are pairs (x mod 2, x) and the key is given as an index (0: the first component)
+        nodes.append({"k": "map", "u": [0], "p": {"f": "kv"}, "t": ["H", ["E", "E"]]})
+        p["key"] = "idx0"
+    nodes.append({"k": kind, "u": [len(nodes) - 1], "p": p, "t": t})
+    nodes.append({"k": "sink", "u": [len(nodes) - 1], "p": {}, "t": None})
     mode = draw(st.sampled_from(["sync", "fut", "fut", "coro"]))
     emit = st.tuples(st.just("emit"), st.just(0), st.integers(0, 5))
     adv = st.one_of(st.tuples(st.just("adv"), st.just("next")),
@@ -56,18 +60,21 @@ def case_strategy(draw, tier="quick"):
         # bursts: "!" = the next action follows before the loop runs anything
         marks = draw(st.lists(st.integers(0, 2), min_size=len(acts), max_size=len(acts)))
         acts = [a + ["!"] if m == 0 and a[0] == "emit" else a for a, m in zip(acts, marks)]
-    return {"spec": {"nodes": nodes, "fb": None}, "cmodes": {"2": mode}, "actions": acts}
+    return {"spec": {"nodes": nodes, "fb": None}, "cmodes": {str(len(nodes) - 1): mode},
+            "actions": acts}
 
 
 def execute(case):
     spec = case["spec"]
-    nd = spec["nodes"][1]
+    N, S = len(spec["nodes"]) - 2, len(spec["nodes"]) - 1
+    nd = spec["nodes"][N]
     kind, p = nd["k"], nd["p"]
+    cmode = list(case["cmodes"].values())[0]
     iv = p["i"] if "i" in p else p["timeout"]
-    run = schedule.execute(case, consumer_modes={2: case["cmodes"]["2"]})
+    run = schedule.execute(case, consumer_modes={S: cmode})
     ev = run.log.events
-    arr = [(i, e[3], e[5]) for i, e in enumerate(ev) if e[0] == "arr" and e[1] == 1]
-    out = [(i, e[2], e[4]) for i, e in enumerate(ev) if e[0] == "rec" and e[1] == 1]
+    arr = [(i, e[3], e[5]) for i, e in enumerate(ev) if e[0] == "arr" and e[1] == N]
+    out = [(i, e[2], e[4]) for i, e in enumerate(ev) if e[0] == "rec" and e[1] == N]
     fin_idx = next((i for i, e in enumerate(ev) if e[0] == "finish-phase"), len(ev))
     v = []
     sig = lambda w: "%s:%s:%s" % (ID, kind if kind != "partition_t" else "partition", w)  # noqa
@@ -78,9 +85,9 @@ def execute(case):
     busy = []
     start = {}
     for e in ev:
-        if e[0] == "cs" and e[1] == 2:
+        if e[0] == "cs" and e[1] == S:
             start[e[2]] = e[4]
-        elif e[0] == "cf" and e[1] == 2 and e[2] in start:
+        elif e[0] == "cf" and e[1] == S and e[2] in start:
             busy.append((start.pop(e[2]), e[3]))
     t_end = run.t_end
     for inv, t0 in start.items():
@@ -180,7 +187,7 @@ def execute(case):
     if kind == "partition_t" and any(len(b) == p["n"] for _, b, _ in out) and p["n"] > 1:
         cls.add("size-flush")
     return Result(v, nontrivial=bool(cls), classes=sorted(cls) + ["node:" + kind,
-                                                                   "consumer:" + case["cmodes"]["2"]])
+                                                                   "consumer:" + cmode] + (["index-key"] if p.get("key") == "idx0" else []))
 
 
 PARTS = [Part("arrival-patterns", case_strategy, execute, quick=2400, thorough=15000)]
